@@ -105,9 +105,12 @@ def _check_sub_element_upgrade(old, new, equal, is_valid_upgrade):
                 is_valid_upgrade &= \
                     new.get_property_relations()[relation_id] > old.get_property_relations()[relation_id]
 
-    if set(old.get_attachments().keys()) - set(new.get_attachments().keys()) != set():
-        # New version removes attachments. No upgrade possible.
-        equal = is_valid_upgrade = False
+    if old.get_attachments().keys() != new.get_attachments().keys():
+        # Adding an attachment is possible, removing one is not.
+        equal = False
+        if set(old.get_attachments().keys()) - set(new.get_attachments().keys()) != set():
+            # New version removes attachments. No upgrade possible.
+            is_valid_upgrade = False
 
     for name, attachment in new.get_attachments().items():
         if name in old.get_attachments():
